@@ -423,8 +423,14 @@ func Install() {
 			return err
 		},
 		ListDir: func(path string) ([]string, error) {
+			// a gate on either side of the listing: what the caller computed before it and what it computes
+			// after it can both be outdated by a writer that runs in between
+			w := worldOf(path)
+			if w != nil {
+				w.gate("before-listdir:" + filepath.Base(path))
+			}
 			names, err := orig.k.ListDir(path)
-			if w := worldOf(path); w != nil {
+			if w != nil {
 				w.gate("listdir:" + filepath.Base(path))
 			}
 			return names, err
